@@ -550,6 +550,7 @@ func TestC03(t *testing.T) {
 		s.Add(explore.Scenario{Name: "back-pressure-" + tier, Remote: true, Tiers: []string{tier}, MaxDev: map[string]int{"quick": 1, "thorough": 2},
 			Run: func(x *explore.X) { world.Run(t, x, func() { scenario(x, 2, true) }) }})
 	}
+	s.Add(explore.Scenario{Name: "loopback-sockets", Remote: true, StallS: 200, FreeRunning: true, Run: loopbackScenario})
 	s.Add(explore.Scenario{Name: "two-tunnels-quick", Remote: true, Tiers: []string{"quick"},
 		Run: func(x *explore.X) { world.Run(t, x, func() { twoTunnels(x, 3) }) }})
 	s.Add(explore.Scenario{Name: "two-tunnels-thorough", Remote: true, Tiers: []string{"thorough"},
